@@ -2,6 +2,7 @@
 (* Trace validation for C09: lines recorded by harness/src/bin/c09.rs         *)
 (*   {"a":"Reset","post":held}                                                *)
 (*   {"a":"Deliver","ms":[{item,t,v}..],"post":held}  one engine event        *)
+(*   {"a":"Touch","item":i,"post":held}   a cancel request recorded for i     *)
 EXTENDS Freshness, Json, IOUtils
 Log == ndJsonDeserialize(IOEnv.TRACE)
 VARIABLES l, bad
@@ -32,7 +33,14 @@ TStep == /\ Log[l].a = "Deliver"
                       \cup (IF NoRollbackA THEN {} ELSE {"P:NoRollback"})
                IN bad' = IF tags = {} THEN bad ELSE Append(bad, <<l, tags>>)
 
-TNext == l <= Len(Log) /\ l' = l + 1 /\ (TReset \/ TStep)
+\* a recorded cancel request for an order item: the held exchange data must not change
+TTouch == /\ Log[l].a = "Touch"
+          /\ held' = NormH(Log[l].post)
+          /\ UNCHANGED delivered
+          /\ last' = <<Msg(Log[l].item, 0, 0)>>
+          /\ bad' = IF held' = held THEN bad ELSE Append(bad, <<l, {"touch"}>>)
+
+TNext == l <= Len(Log) /\ l' = l + 1 /\ (TReset \/ TStep \/ TTouch)
 TSpec == TInit /\ [][TNext]_tvars
 Done == l = Len(Log) + 1 => PrintT(<<"TRACE_END", ToJson(bad)>>)
 Post == PrintT(<<"TRACE_DONE", TLCGet("stats").diameter, Len(Log)>>)
